@@ -412,6 +412,24 @@ Proof.
   all: try (apply in_app_or in Hin; destruct Hin as [Hin|[<-|[]]];
             try (apply in_purge in Hin; destruct Hin as (Hin & _)); auto;
             try (destruct Hm as [Hm|(j' & Hm)]; discriminate); try lia).
+Qed.
+
+Ltac ltb_eq :=
+  match goal with |- (?a <? ?b) = (?c <? ?d) =>
+    destruct (Nat.ltb_spec a b), (Nat.ltb_spec c d); auto; try lia end.
+
+Lemma step_w1 : forall s lb s', InvE s -> lstep s lb = Some s' ->
+  forall p, p <= N -> wc (th s' p) = Z.of_nat (npending s' p).
+Proof.
+  intros s lb s' I H p Hp.
+  pose proof (e_w1 _ _ _ I p Hp) as W1.
+  step_inv_fine H.
+  all: try (crunch; rewrite W1; f_equal; unfold WorkersInv.npending; apply count_ext; intros y Hy;
+            apply in_children in Hy; destruct Hy as (Hy & Hyp);
+            assert (Hy0 : y <> 0) by (unfold WorkersInv.helper in Hy; lia);
+            destruct (parent_le y p Hy Hyp) as (_ & Hlt);
+            unfold pendingb; crunch; use_eqs; rewrite ?acks_app, ?acks_purge, ?acks_cons;
+            cbn [is_ack_from]; try reflexivity; try lia; try ltb_eq; fail).
   Show.
 Abort.
 End P.
